@@ -64,6 +64,15 @@ impl Context {
 }
 
 // ------------------------------------------------------------------ every emitting production
+/// What the driver assumes of the assembler's output (stub `preprocess` of unit `driver`).  Every production under contract
+/// preserves it (clause `asm.output_invariant_preserved`); it holds trivially for the empty context and output.
+pub open spec fn asm_inv(c: &Context, o: &Output) -> bool {
+    &&& o.code@.len() == c.mapper.v_next()
+    &&& forall|k: usize| k < c.mapper.v_next() ==> #[trigger] c.mapper.v_map().contains_key(k)
+    &&& forall|s: String| #[trigger] c.label_map@.contains_key(s) && c.label_map@[s].r#type is CODE ==> c.label_map@[s].map <= o.code@.len()
+    &&& forall|s: String| #[trigger] c.fn_map@.contains_key(s) ==> c.fn_map@[s] <= o.code@.len()
+}
+
 //@emitters
 
 // ------------------------------------------------------------------ procedures, calls, returns
@@ -75,6 +84,7 @@ impl Context {
         !old(context).fn_map@.contains_key(n) ==> r.is_ok() && final(context).fn_map@ == old(context).fn_map@.insert(n, old(out).code@.len() as usize),
         old(context).fn_map@.contains_key(n) ==> r.is_err() && final(context).fn_map@ == old(context).fn_map@,
         final(out).code@ == old(out).code@, final(out).data@ == old(out).data@, final(context).label_map@ == old(context).label_map@,
+        asm_inv(old(context), old(out)) ==> asm_inv(final(context), final(out)), //# C08,C16 asm.output_invariant_preserved
 //@end
 
 // a label denotes the index of the next instruction to be emitted; defining it twice is refused and changes nothing
@@ -93,6 +103,7 @@ impl Context {
         has_key(old(context).label_map@, s@.drop_last()) ==> r.is_err() && final(context).label_map@ == old(context).label_map@,
         final(out).code@ == old(out).code@, final(out).data@ == old(out).data@, final(context).fn_map@ == old(context).fn_map@,
         final(context).mapper == old(context).mapper, final(context).data_counter == old(context).data_counter,
+        asm_inv(old(context), old(out)) ==> asm_inv(final(context), final(out)), //# C08,C16 asm.output_invariant_preserved
 //@end
 
 //@action src/lib/preprocessor/preprocessor.rs call = quote_call, name_string as as_call
@@ -105,6 +116,7 @@ impl Context {
             && final(out).code@.subrange(0, old(out).code@.len() as int) == old(out).code@
             && final(context).mapper.v_next() == old(context).mapper.v_next() + 1,
         final(out).data@ == old(out).data@, final(context).fn_map@ == old(context).fn_map@, final(context).label_map@ == old(context).label_map@,
+        asm_inv(old(context), old(out)) ==> asm_inv(final(context), final(out)), //# C08,C16 asm.output_invariant_preserved
 //@end
 
 //@action src/lib/preprocessor/preprocessor.rs int = quote_int, u_byte_num as as_int
@@ -115,6 +127,7 @@ impl Context {
         (n == 3 || n == 0x10 || n == 0x21) ==> r.is_ok() && final(out).code@.len() == old(out).code@.len() + 1,
         !(n == 3 || n == 0x10 || n == 0x21) ==> r.is_err() && final(out).code@ == old(out).code@,
         final(out).data@ == old(out).data@,
+        asm_inv(old(context), old(out)) ==> asm_inv(final(context), final(out)), //# C08,C16 asm.output_invariant_preserved
 //@end
 
 //@action src/lib/preprocessor/preprocessor.rs offset = quote_offset, name_string as as_offset
@@ -126,6 +139,7 @@ impl Context {
         old(context).label_map@.contains_key(n) && old(context).label_map@[n].r#type is CODE ==> r.is_err(),
         !old(context).label_map@.contains_key(n) ==> r.is_err(),
         final(context).label_map@ == old(context).label_map@, final(out).code@ == old(out).code@, final(out).data@ == old(out).data@,
+        asm_inv(old(context), old(out)) ==> asm_inv(final(context), final(out)), //# C08,C16 asm.output_invariant_preserved
 //@end
 
 //@action src/lib/preprocessor/preprocessor.rs byte_label = quote_byte_length, name_string as as_byte_label
@@ -136,6 +150,7 @@ impl Context {
         old(context).label_map@.contains_key(n) && old(context).label_map@[n].r#type is CODE ==> r.is_err(),
         !old(context).label_map@.contains_key(n) ==> r.is_err(),
         final(context).label_map@ == old(context).label_map@, final(out).code@ == old(out).code@,
+        asm_inv(old(context), old(out)) ==> asm_inv(final(context), final(out)), //# C08,C16 asm.output_invariant_preserved
 //@end
 
 //@action src/lib/preprocessor/preprocessor.rs word_label = quote_word_length, name_string as as_word_label
@@ -146,6 +161,7 @@ impl Context {
         old(context).label_map@.contains_key(n) && old(context).label_map@[n].r#type is CODE ==> r.is_err(),
         !old(context).label_map@.contains_key(n) ==> r.is_err(),
         final(context).label_map@ == old(context).label_map@, final(out).code@ == old(out).code@,
+        asm_inv(old(context), old(out)) ==> asm_inv(final(context), final(out)), //# C08,C16 asm.output_invariant_preserved
 //@end
 
 // the closing brace of a procedure emits the implied `ret`, associated with the position of the brace
@@ -159,6 +175,7 @@ impl Context {
         final(context).mapper.v_map() == old(context).mapper.v_map().insert(old(context).mapper.v_next(),
             if old(context).mapper.v_lock() != 0 { old(context).mapper.v_last() } else { end }),
         final(context).fn_map@ == old(context).fn_map@, final(context).label_map@ == old(context).label_map@,
+        asm_inv(old(context), old(out)) ==> asm_inv(final(context), final(out)), //# C08,C16 asm.output_invariant_preserved
 //@end
 
 //@action src/lib/preprocessor/preprocessor.rs jmps_loops = quote_jmps_loops, name_string as as_jmps_loops
@@ -171,6 +188,7 @@ impl Context {
             && final(out).code@.len() == old(out).code@.len() + 1
             && final(out).code@.subrange(0, old(out).code@.len() as int) == old(out).code@,
         final(out).data@ == old(out).data@, final(context).label_map@ == old(context).label_map@, final(context).fn_map@ == old(context).fn_map@,
+        asm_inv(old(context), old(out)) ==> asm_inv(final(context), final(out)), //# C08,C16 asm.output_invariant_preserved
 //@end
 
 
@@ -194,6 +212,7 @@ impl Context {
         old(context).data_counter + 1 > 65535 ==> r.is_err() && final(context).data_counter == old(context).data_counter
             && final(out).data@ == old(out).data@ && final(context).label_map@ == old(context).label_map@,
         final(out).code@ == old(out).code@, final(context).fn_map@ == old(context).fn_map@,
+        asm_inv(old(context), old(out)) ==> asm_inv(final(context), final(out)), //# C08,C16 asm.output_invariant_preserved
 //@end
 
 //@action src/lib/preprocessor/preprocessor.rs db_directive = label, quote_db, "[", u_word_num, "]" as as_db_zeros
@@ -215,6 +234,7 @@ impl Context {
         old(context).data_counter + n > 65535 ==> r.is_err() && final(context).data_counter == old(context).data_counter
             && final(out).data@ == old(out).data@ && final(context).label_map@ == old(context).label_map@,
         final(out).code@ == old(out).code@, final(context).fn_map@ == old(context).fn_map@,
+        asm_inv(old(context), old(out)) ==> asm_inv(final(context), final(out)), //# C08,C16 asm.output_invariant_preserved
 //@end
 
 //@action src/lib/preprocessor/preprocessor.rs db_directive = label, quote_db, "[", s_byte_num, ",", u_word_num, "]" as as_db_fill
@@ -236,6 +256,7 @@ impl Context {
         old(context).data_counter + n > 65535 ==> r.is_err() && final(context).data_counter == old(context).data_counter
             && final(out).data@ == old(out).data@ && final(context).label_map@ == old(context).label_map@,
         final(out).code@ == old(out).code@, final(context).fn_map@ == old(context).fn_map@,
+        asm_inv(old(context), old(out)) ==> asm_inv(final(context), final(out)), //# C08,C16 asm.output_invariant_preserved
 //@end
 
 //@action src/lib/preprocessor/preprocessor.rs dw_directive = label, quote_dw, s_word_num as as_dw_value
@@ -257,6 +278,7 @@ impl Context {
         old(context).data_counter + 2 > 65535 ==> r.is_err() && final(context).data_counter == old(context).data_counter
             && final(out).data@ == old(out).data@ && final(context).label_map@ == old(context).label_map@,
         final(out).code@ == old(out).code@, final(context).fn_map@ == old(context).fn_map@,
+        asm_inv(old(context), old(out)) ==> asm_inv(final(context), final(out)), //# C08,C16 asm.output_invariant_preserved
 //@end
 
 //@action src/lib/preprocessor/preprocessor.rs dw_directive = label, quote_dw, "[", u_word_num, "]" as as_dw_zeros
@@ -278,6 +300,7 @@ impl Context {
         old(context).data_counter + 2 * n > 65535 ==> r.is_err() && final(context).data_counter == old(context).data_counter
             && final(out).data@ == old(out).data@ && final(context).label_map@ == old(context).label_map@,
         final(out).code@ == old(out).code@, final(context).fn_map@ == old(context).fn_map@,
+        asm_inv(old(context), old(out)) ==> asm_inv(final(context), final(out)), //# C08,C16 asm.output_invariant_preserved
 //@end
 
 //@action src/lib/preprocessor/preprocessor.rs dw_directive = label, quote_dw, "[", s_word_num, ",", u_word_num, "]" as as_dw_fill
@@ -299,6 +322,7 @@ impl Context {
         old(context).data_counter + 2 * n > 65535 ==> r.is_err() && final(context).data_counter == old(context).data_counter
             && final(out).data@ == old(out).data@ && final(context).label_map@ == old(context).label_map@,
         final(out).code@ == old(out).code@, final(context).fn_map@ == old(context).fn_map@,
+        asm_inv(old(context), old(out)) ==> asm_inv(final(context), final(out)), //# C08,C16 asm.output_invariant_preserved
 //@end
 
 //@action src/lib/preprocessor/preprocessor.rs db_directive = label, quote_db, r#"\"[[:print:]]*\""# as as_db_string
@@ -322,6 +346,7 @@ impl Context {
         old(context).data_counter + (q@.len() - 2) > 65535 ==> r.is_err() && final(context).data_counter == old(context).data_counter
             && final(out).data@ == old(out).data@ && final(context).label_map@ == old(context).label_map@,
         final(out).code@ == old(out).code@, final(context).fn_map@ == old(context).fn_map@,
+        asm_inv(old(context), old(out)) ==> asm_inv(final(context), final(out)), //# C08,C16 asm.output_invariant_preserved
 //@end
 
 //@action src/lib/preprocessor/preprocessor.rs dw_directive = label, quote_dw, r#"\"[[:print:]]*\""# as as_dw_string
@@ -345,12 +370,14 @@ impl Context {
         old(context).data_counter + 2 * (q@.len() - 2) > 65535 ==> r.is_err() && final(context).data_counter == old(context).data_counter
             && final(out).data@ == old(out).data@ && final(context).label_map@ == old(context).label_map@,
         final(out).code@ == old(out).code@, final(context).fn_map@ == old(context).fn_map@,
+        asm_inv(old(context), old(out)) ==> asm_inv(final(context), final(out)), //# C08,C16 asm.output_invariant_preserved
 //@end
 
 //@action src/lib/preprocessor/preprocessor.rs set_directive = quote_set, u_word_num as as_set
 //@contract
     ensures final(context).data_counter == 0, final(out).data@.len() == old(out).data@.len() + 1,
         final(out).code@ == old(out).code@, final(context).label_map@ == old(context).label_map@,
+        asm_inv(old(context), old(out)) ==> asm_inv(final(context), final(out)), //# C08,C16 asm.output_invariant_preserved
 //@end
 
 // an OFFSET used as a byte constant must fit in a byte
@@ -360,12 +387,14 @@ impl Context {
         o <= 255 ==> r == Ok::<u8, ParseError>(o as u8),
         o > 255 ==> r.is_err(),
         final(out).code@ == old(out).code@, final(out).data@ == old(out).data@, final(context).label_map@ == old(context).label_map@,
+        asm_inv(old(context), old(out)) ==> asm_inv(final(context), final(out)), //# C08,C16 asm.output_invariant_preserved
 //@end
 
 // unsupported instructions are always refused
 //@action src/lib/preprocessor/preprocessor.rs control_unsupported = quote_control_unsuppoted as as_unsupported
 //@contract
     ensures r.is_err(), final(out).code@ == old(out).code@, final(out).data@ == old(out).data@,
+        asm_inv(old(context), old(out)) ==> asm_inv(final(context), final(out)), //# C08,C16 asm.output_invariant_preserved
 //@end
 
 } // verus!
